@@ -349,6 +349,13 @@ end PyxProps.C17
 namespace PyxProps.C17
 open Pyx.OSetPtr
 
+/-! Source tie of this section: the loop BODIES are `discard` and `add`, whose statements are read from the source
+    (`ordered_set_cells_as_in_source`), and the walks are the `__iter__` / `__reversed__` generators of the same tie.  The LOOPS
+    `iterReplace` / `reversedReplace` are the HARNESS's loops - a consumer interleaved with the library's generator - written
+    in the model by hand; they are not part of the generated IR and are tied to the implementation by the correspondence runs
+    only.  (`iterRem` is in `ordered_set_cells_as_in_source`; `reversedRem` is not, its tie to the generated `__reversed__`
+    shape and `discard` program is the second conjunct of `reverse_iter_remove_current_reachable`.) -/
+
 /-- FORWARD (`for x in s: if p x and fewer than limit replaced: s.discard(x); s.add(fresh + i)`), at pointer level: the
     generator holds the visited cell and reads its `next` after the body ran; the body unlinks that cell and links a fresh cell
     before the sentinel.  In every represented state, for EVERY predicate that is false on the fresh elements (the harness's
@@ -378,9 +385,9 @@ theorem reversed_replace_current (p : Nat → Bool) (fresh limit : Nat)
   obtain ⟨as, ha⟩ := h
   exact reprA_reversedReplace p fresh limit ha hfresh f hf
 
-/-- the pointer-level loops ARE the list-level loops (`absIterReplace` / `absReversedReplace` of PyxModel/OSetPtr.lean), step
-    by step and for every fuel and predicate: from a represented ring `pre ++ suf` (resp. `preRev.reverse ++ tail`) with the
-    iterator about to visit the first cell of `suf` (the last of `preRev.reverse`) -/
+/-- the FORWARD pointer-level loop IS the list-level loop `absIterReplace` of PyxModel/OSetPtr.lean, step by step and for every
+    fuel and predicate: from a represented ring `pre ++ suf` with the iterator about to visit the first cell of `suf`
+    (the backward loop: `reversed_replace_loop_refines` below) -/
 theorem replace_loops_refine (p : Nat → Bool) (fresh limit f : Nat) (s : Store) (pre suf L : List Nat) (added : Nat)
     (h : ReprA s (pre ++ suf) L) (hfresh : ∀ j, added ≤ j → fresh + j ∉ L) :
     (iterReplace p fresh limit f s ((suf ++ [0]).head?.getD 0) added).1 =
@@ -389,11 +396,42 @@ theorem replace_loops_refine (p : Nat → Bool) (fresh limit f : Nat) (s : Store
         (absIterReplace p fresh limit f (pre.map s.key) (suf.map s.key) added).2 :=
   iterReplace_refines p fresh limit f s pre suf L added h hfresh
 
+/-- the BACKWARD pointer-level loop IS the list-level loop `absReversedReplace`: from a represented ring
+    `preRev.reverse ++ tail` with the iterator about to visit the last cell of `preRev.reverse`, for every predicate and every
+    fuel larger than the number of cells still ahead -/
+theorem reversed_replace_loop_refines (p : Nat → Bool) (fresh limit f : Nat) (s : Store) (preRev tail L : List Nat) (added : Nat)
+    (h : ReprA s (preRev.reverse ++ tail) L) (hfresh : ∀ j, added ≤ j → fresh + j ∉ L) (hf : preRev.length < f) :
+    (reversedReplace p fresh limit f s ((0 :: preRev.reverse).getLast?.getD 0) added).1 =
+        (absReversedReplace p fresh limit (preRev.map s.key) (tail.map s.key) added).1 ∧
+    Repr (reversedReplace p fresh limit f s ((0 :: preRev.reverse).getLast?.getD 0) added).2
+        (absReversedReplace p fresh limit (preRev.map s.key) (tail.map s.key) added).2 :=
+  reversedReplace_refines p fresh limit preRev f s tail L added h hfresh hf
+
+/-- the fuel the DRIVER gives the two loops (`2 * s.fresh + 1` forward, `s.fresh` backward, Driver/C17.lean) satisfies the fuel
+    hypotheses of the two theorems in every represented state: the cells of the ring have distinct addresses below the
+    allocator, so `|L| < s.fresh`.  Hence the driver's runs are the runs the theorems speak about. -/
+theorem replace_loops_driver_fuel (p : Nat → Bool) (fresh limit : Nat) (hp : ∀ j, p (fresh + j) = false)
+    (s : Store) (L : List Nat) (h : Repr s L) (hfresh : ∀ j, fresh + j ∉ L) :
+    L.length < s.fresh ∧
+    (iterReplace p fresh limit (2 * s.fresh + 1) s (s.next 0) 0).1.filter (fun x => decide (x ∈ L)) = L ∧
+    Repr (iterReplace p fresh limit (2 * s.fresh + 1) s (s.next 0) 0).2
+      (keptBy p limit L 0 ++ freshFrom fresh 0 (replacedCount p limit L 0)) ∧
+    (reversedReplace p fresh limit s.fresh s (s.prev 0) 0).1 = L.reverse ∧
+    Repr (reversedReplace p fresh limit s.fresh s (s.prev 0) 0).2
+      ((keptBy p limit L.reverse 0).reverse ++ freshFrom fresh 0 (replacedCount p limit L.reverse 0)) := by
+  have hlen : L.length < s.fresh := by
+    obtain ⟨as, ha⟩ := h
+    rw [← ha.keys, List.length_map]
+    exact ha.len
+  have hf := iter_replace_current p fresh limit hp s L h hfresh (2 * s.fresh + 1) (by omega)
+  have hb := reversed_replace_current p fresh limit s L h hfresh s.fresh hlen
+  exact ⟨hlen, hf.2.2, hf.2.1, hb.1, hb.2⟩
+
 /-! applied: the ring 9, 8, 7 (built by three pointer-level adds, `Repr` from `ptr_reachable`), fresh elements 1000, 1001, …,
     at most 4 replacements.  Replacing 9 and 7: the walk visits 9 8 7 and then BOTH fresh elements; replacing only the last
     element 7: its fresh replacement is not visited; backwards no fresh element is visited. -/
 def ring987 : Store := runP [.add 9, .add 8, .add 7]
-theorem ring987_repr : Repr ring987 [9, 8, 7] := (ptr_reachable [.add 9, .add 8, .add 7]).1
+private theorem ring987_repr : Repr ring987 [9, 8, 7] := (ptr_reachable [.add 9, .add 8, .add 7]).1
 example : (iterReplace (fun k => k == 9 || k == 7) 1000 4 7 ring987 (ring987.next 0) 0).1 =
       [9, 8, 7] ++ (if lostFresh (fun k => k == 9 || k == 7) 4 [9, 8, 7] 0 = true then []
                     else freshFrom 1000 0 (replacedCount (fun k => k == 9 || k == 7) 4 [9, 8, 7] 0)) ∧
